@@ -1,9 +1,10 @@
 (* C17 — Tar export round-trips the filesystem view.
    Only the property theorems (closed by [exact]) with their [Print Assumptions], and
    non-vacuity examples.  Model: Model/TarHdr.v (+ Model/Hardlinks.v for the hard-link
-   reset WriteTar applies first); proofs: Proofs/TarP.v, TarExtractP.v, TarSpecP.v. *)
+   reset WriteTar applies first); proofs: Proofs/TarP.v, TarExtractP.v, TarSpecP.v, TarFilterP.v
+   (the last one on top of C11's Proofs/HardlinksP.v). *)
 From Coq Require Import List NArith ZArith Bool.
-From FS Require Import Sx Model.Path Model.Stat Model.Tree Model.Hardlinks Model.TarHdr Proofs.TarP Proofs.TarExtractP Proofs.TarSpecP.
+From FS Require Import Sx Model.Path Model.Stat Model.Tree Model.Hardlinks Model.TarHdr Proofs.TarP Proofs.TarExtractP Proofs.TarSpecP Proofs.TarFilterP.
 Import ListNotations.
 Open Scope N_scope.
 
@@ -109,6 +110,37 @@ Theorem model_meets_member_spec_view :
     members_match (walk_root v) (archive v) = true /\ links_resolve (archive v) = true.
 Proof. exact model_meets_member_spec_view_proof. Qed.
 
+(* Composition with the C11 hard-link reset on FILTERED views (regression for /repo dd2568d).
+   l is any listing the filters leave of a canonical walk (Hardlinks.wf_links: distinct paths,
+   a link names an EARLIER plain non-link entry if it names a kept entry at all) — in
+   particular the first member of a link group may have been excluded.  If the members of a
+   link group have the same type (one inode), the archive is self-contained: every hard-link
+   member names an earlier regular member of the archive. *)
+Theorem filtered_links_resolve :
+  forall l, wf_links (map fst l) = true -> group_types_agree l = true ->
+    wf_listing_b (reset_entries l) = true ->
+    links_resolve (map archived_member (tar_members_listing l)) = true.
+Proof. exact filtered_links_resolve_proof. Qed.
+
+(* If they also have the same size and bytes (and only regular files have bytes), the listing
+   WriteTar ends up walking has closed links ... *)
+Theorem filtered_links_closed :
+  forall l, wf_links (map fst l) = true -> group_types_agree l = true -> group_contents_agree l = true ->
+    no_content_unless_regular l = true ->
+    wf_listing_b (reset_entries l) = true ->
+    links_closed (reset_entries l) = true.
+Proof. exact filtered_links_closed_proof. Qed.
+
+(* ... so that extracting the archive of the filtered view gives back exactly the kept entries,
+   the first kept member of each link group as a regular file with the bytes and the later
+   ones as links to it. *)
+Theorem extract_filtered_roundtrip :
+  forall l, wf_links (map fst l) = true -> group_types_agree l = true -> group_contents_agree l = true ->
+    no_content_unless_regular l = true ->
+    wf_listing_b (reset_entries l) = true ->
+    extract (map archived_member (tar_members_listing l)) = map extracted (reset_entries l).
+Proof. exact extract_filtered_roundtrip_proof. Qed.
+
 Print Assumptions members_are_view.
 Print Assumptions members_are_listing.
 Print Assumptions extract_roundtrip.
@@ -116,6 +148,9 @@ Print Assumptions extract_listing_roundtrip.
 Print Assumptions extract_closed_listing_roundtrip.
 Print Assumptions model_meets_member_spec.
 Print Assumptions model_meets_member_spec_view.
+Print Assumptions filtered_links_resolve.
+Print Assumptions filtered_links_closed.
+Print Assumptions extract_filtered_roundtrip.
 Print Assumptions members_are_view_closed.
 Print Assumptions payload_iff_regular_nonempty_nonlink.
 Print Assumptions payload_size_matches.
@@ -199,6 +234,34 @@ Example filtered_extracts :
   /\ members_match (reset_entries filtered2) (map archived_member (tar_members_listing filtered2)) = true
   /\ links_resolve (map archived_member (tar_members_listing filtered2)) = true
   /\ links_resolve (map archived_member (tar_of_listing filtered2)) = false.   (* without the reset: dangling *)
+Proof. vm_compute. repeat split; reflexivity. Qed.
+
+(* the hypotheses of the filtered-view theorems hold on filtered2 and on view1's walk with
+   d/f filtered out (d/g, the link to it, is kept and becomes a regular member with the bytes) *)
+Definition view1_without_df : list entry :=
+  filter (fun e : entry => negb (bytes_eqb (st_path (fst e)) p_df)) (walk_root view1).
+Example filtered_hypotheses :
+  wf_links (map fst filtered2) = true /\ group_types_agree filtered2 = true
+  /\ group_contents_agree filtered2 = true /\ no_content_unless_regular filtered2 = true
+  /\ length view1_without_df = 8%nat /\ links_closed view1_without_df = false
+  /\ wf_links (map fst view1_without_df) = true /\ group_types_agree view1_without_df = true
+  /\ group_contents_agree view1_without_df = true /\ no_content_unless_regular view1_without_df = true
+  /\ wf_listing_b (reset_entries view1_without_df) = true
+  /\ map (fun m : member => (h_typeflag (fst m), snd m)) (tar_members_listing view1_without_df)
+     = [(TypeBlock, []); (TypeChar, []); (TypeDir, []); (TypeReg, []); (TypeReg, hello);
+        (TypeDir, []); (TypeFifo, []); (TypeSymlink, [])]
+  /\ links_resolve (map archived_member (tar_members_listing view1_without_df)) = true
+  /\ extract (map archived_member (tar_members_listing view1_without_df))
+     = map extracted (reset_entries view1_without_df).
+Proof. vm_compute. repeat split; reflexivity. Qed.
+
+(* group_types_agree is needed: a "link" to a fifo passes the hard-link validator, but tar
+   cannot express it (a '1' member must name a '0' member) *)
+Example group_types_needed :
+  let l := [(set_path (mkst (ModeNamedPipe + 420) 0 0 0 0 [] 0 0 []) n_e, []);
+            (set_path (mkst 420 0 0 0 0 n_e 0 0 []) n_f, [])] in
+  wf_links (map fst l) = true /\ wf_listing_b (reset_entries l) = true /\ group_types_agree l = false
+  /\ links_resolve (map archived_member (tar_members_listing l)) = false.
 Proof. vm_compute. repeat split; reflexivity. Qed.
 
 (* the mtime hypothesis of model_meets_member_spec is needed: at the top of the int64 range
